@@ -14,6 +14,7 @@ inductive VersionRange
   | gte (v : Version) | gt (v : Version) | lte (v : Version) | lt (v : Version)
   | any | wildcardMajor (major : Nat) | wildcardMinor (major minor : Nat)
   | hyphen (from_ to : Version)
+  | anchored (r : VersionRange) (a : Version)   -- `Partial { range, anchor }`: matches like `r`, is anchored at `a`
 deriving Repr, DecidableEq
 
 inductive VersionSpec
@@ -47,12 +48,55 @@ def parseWildcard (spec : Text) : Option VersionRange :=
     else none
   | _ => none
 
+/-- the lowest version that starts with `M.m`: its prereleases count too (`M.m.0-0`) -/
+def floorVer (M m : Nat) : Version := ⟨M, m, 0, ['0'], []⟩
+
+def succU64 (n : Nat) : Option Nat := if n + 1 ≤ u64Max then some (n + 1) else none     -- `checked_add(1)`
+
+/-- what an operator followed by a partial version (`M` or `M.m`) stands for -/
+def partialRange (op : String) (M : Nat) (m : Option Nat) : Option VersionRange :=
+  match op, m with
+  | ">=", m => some (.gte (floorVer M (m.getD 0)))
+  | ">", none => (succU64 M).map fun M' => .gte (floorVer M' 0)
+  | ">", some m => (succU64 m).map fun m' => .gte (floorVer M m')
+  | "<=", none => (succU64 M).map fun M' => .lt (floorVer M' 0)
+  | "<=", some m => (succU64 m).map fun m' => .lt (floorVer M m')
+  | "<", m => some (.lt (floorVer M (m.getD 0)))
+  | "^", some m => if M > 0 then some (.caret (floorVer M m)) else some (.wildcardMinor M m)
+  | _, none => some (.wildcardMajor M)
+  | _, some m => some (.wildcardMinor M m)
+
+/-- `VersionRange::parse_partial`: an operator (`<=`, `>=`, `<`, `>`, `^`, `~`, tried in this order) followed by a
+    partial version; `none` for everything else (no operator, a full version, junk) -/
+def parsePartial (spec : Text) : Option VersionRange :=
+  match ["<=", ">=", "<", ">", "^", "~"].findSome? fun op => (stripPrefix op.toList spec).map fun r => (op, r) with
+  | none => none
+  | some (op, rest0) =>
+    let rest1 := trim rest0
+    let rest := match rest1 with | 'v' :: r => r | _ => rest1
+    -- "~1.x" is "~1": a wildcard component ends the numbers
+    match (splitChar '.' rest).takeWhile (fun c => !isWildcard c) with
+    | [a] => match parseU64 a with | some M => (partialRange op M none).map (.anchored · ⟨M, 0, 0, [], []⟩) | none => none
+    | [a, b] =>
+      match parseU64 a with
+      | none => none
+      | some M => match parseU64 b with | some m => (partialRange op M (some m)).map (.anchored · ⟨M, m, 0, [], []⟩) | none => none
+    | a :: b :: _ =>
+      -- three or more pieces: a full version (or junk) — but the first two numbers are parsed before the third is looked at
+      match parseU64 a with
+      | none => none
+      | some _ => match parseU64 b with | some _ => none | none => none
+    | [] => none
+
 /-- `VersionRange::parse` -/
 def parseRange (spec0 : Text) : Option VersionRange :=
   let spec := trim spec0
   match parseHyphen spec with
   | some r => some r
   | none =>
+    match parsePartial spec with
+    | some r => some r
+    | none =>
     match stripPrefix ">=".toList spec with
     | some rest => (parseVersion (trim rest)).map .gte
     | none =>
@@ -149,6 +193,7 @@ def satisfiesRange (r : VersionRange) (version : Version) : Bool :=
   | .wildcardMajor m => version.major == m
   | .wildcardMinor m n => version.major == m && version.minor == n
   | .hyphen f t => pge version f && ple version t
+  | .anchored r _ => satisfiesRange r version
 
 /-- `VersionRange::base_version` -/
 def baseRange : VersionRange → Option Version
@@ -157,6 +202,7 @@ def baseRange : VersionRange → Option Version
   | .wildcardMajor m => some ⟨m, 0, 0, [], []⟩
   | .wildcardMinor m n => some ⟨m, n, 0, [], []⟩
   | .hyphen f _ => some f
+  | .anchored _ a => some a
 
 def satisfiesFlat : VersionSpec → Version → Bool
   | .single r, v => satisfiesRange r v
